@@ -21,7 +21,7 @@ func init() {
 	}
 	register(&core.Rule{Name: "C20/LIT-info", Props: []string{"C20", "C06"}, Min: 30,
 		Doc: "parameter structs complete, each field with its tabled per-plan / per-call provenance", Run: c20Lit})
-	register(&core.Rule{Name: "C20/FLOW-parent", Props: []string{"C20", "C01"}, Min: 8,
+	register(&core.Rule{Name: "C20/FLOW-parent", Props: []string{"C20", "C01", "C18"}, Min: 8,
 		Doc: "children receive the runtime parent type and their own element as source", Run: c20Parent})
 	register(&core.Rule{Name: "C20/DOM-once", Props: []string{"C20", "C13"}, Min: 3,
 		Doc: "one resolvePlannedField per field per iteration; one resolver call per resolvePlannedField", Run: c20Once})
